@@ -86,7 +86,7 @@ example : let w := run Cfg.good (World.start fun _ => 0)
     configuration the value is handed over in the registration loop and the selecting fiber is then suspended with no
     registration, task or timer left: it can never be resumed. -/
 def hangActs : List Action :=
-  [.timers, .runTask, .go 1, .sleep0, .runTask, .take 0, .timers, .runTask, .select [.give 0 11], .runTask, .finish false]
+  [.timers, .runTask, .go 1, .sleep 0, .runTask, .take 0, .timers, .runTask, .select [.give 0 11], .runTask, .finish false]
 
 theorem select_give_to_waiting_taker_sticks :
     lostWakeup (run Cfg.pinned (World.start fun _ => 0) hangActs) 0 1 = true
